@@ -163,18 +163,24 @@ def writer(prog, rep):
         for r in pk.returns():
             if norm(r.kid(0)) != ("c", 0) or not reach_without_launch(r.block.id):
                 continue
-            at = []
+            dom = []
             for cond, truth in pk.edge_conds(r):
-                at += [(op, L, R) for op, L, R, _, _ in cond_atoms(cond, truth)]
+                dom += [(op, L, R) for op, L, R, _, _ in cond_atoms(cond, truth)]
+            firsts = set(norm(e.kid(0)) for e in pk.all_elems() if e.is_assign and e.op == "=" and any(t[0] == "." and t[2] == "stqh_first" for t in subterms(norm(e.kid(1)))))
+
+            def is_idle(atoms):
+                return any((op == "!=" and fld(L, "write_cookie") and R == ("c", 0)) or (op == "!=" and fld(L, "failed") and R == ("c", 0)) or
+                           (op == "==" and R == ("c", 0) and (L in firsts or any(t[0] == "." and t[2] == "stqh_first" for t in subterms(L)))) for op, L, R in atoms)
+            # every edge into the return must say so by itself (one edge that does must not vouch for another that does not)
+            edges = []
             for b in pk.blocks.values():
                 if b.cond is None:
                     continue
                 for i, sb in enumerate(b.succs):
                     if sb == r.block.id:
-                        at += [(op, L, R) for op, L, R, _, _ in cond_atoms(b.cond, i == 0)]
-            firsts = set(norm(e.kid(0)) for e in pk.all_elems() if e.is_assign and e.op == "=" and any(t[0] == "." and t[2] == "stqh_first" for t in subterms(norm(e.kid(1)))))
-            idle = any((op == "!=" and fld(L, "write_cookie") and R == ("c", 0)) or (op == "!=" and fld(L, "failed") and R == ("c", 0)) or
-                       (op == "==" and R == ("c", 0) and (L in firsts or any(t[0] == "." and t[2] == "stqh_first" for t in subterms(L)))) for op, L, R in at)
+                        edges.append([(op, L, R) for op, L, R, _, _ in cond_atoms(b.cond, i == 0)])
+            idle = is_idle(dom) or (bool(edges) and all(is_idle(ed) for ed in edges))
+            at = dom + [a for ed in edges for a in ed]
             rep.check(idle, "F1-progress", "poke: `return (0)` at line %d without a launch" % r.line, r.where,
                       "poke gives up without starting a write although no write is in flight, the writer has not failed and the queue may hold data "
                       "(known on this edge: %s): the queue stalls, nothing more is sent and no failure is reported" % [(o, show(l), show(rr)) for o, l, rr in at][-3:],
@@ -716,6 +722,8 @@ def run(tier):
         rep.add_stats(prog)
         writer(prog, rep)
         writer_samebuf(prog, rep)
+        from . import c14 as _c14
+        _c14.reserve_flag_rule(prog, rep)      # the reservation mark: set by a successful reserve, cleared by consume, gone after a failed reserve
         orphan_rule(prog, rep)
         reader(prog, rep)
         # the transport below the buffers is part of this property's anchored code: a wrong byte count reported by
